@@ -233,3 +233,39 @@ def validate_traces(trace_module, cfg, traces, *, shards=None, timeout=900, env=
             diag.append('no step enabled (no diagnostic)')
     validate_traces.last_rejects = rejects
     return acc, diag, res
+
+
+def negative_controls(trace_module, cfg, traces, corruptors, **kw):
+    """ corruptors: list of (name, fn); fn(event) corrupts the event IN PLACE and returns True if it applied.
+    For every corruptor the first event (of the first trace) it applies to is corrupted in a deep copy of that trace; every corrupted trace must be
+    REJECTED by the trace spec at exactly that event, otherwise the machinery cannot see what it claims to decide (Machinery, exit 2).
+    Returns the names of the controls that were exercised. """
+    import copy
+    saved = getattr(validate_traces, 'last_rejects', None)
+    bad, meta = [], []
+    for name, fn in corruptors:
+        done = False
+        for t in traces:
+            for i, e in enumerate(t['ev']):
+                e2 = copy.deepcopy(e)
+                try:
+                    ok = fn(e2)
+                except (KeyError, IndexError, TypeError):
+                    ok = False
+                if ok:
+                    c = {k: v for k, v in t.items() if k != 'ev'}
+                    c['ev'] = list(t['ev'])
+                    c['ev'][i] = e2
+                    bad.append(c)
+                    meta.append((name, i + 1))
+                    done = True
+                    break
+            if done:
+                break
+    if bad:
+        acc, diag, _ = validate_traces(trace_module, cfg, bad, shards=min(4, len(bad)), **kw)
+        for (name, pos), a, rj in zip(meta, acc, validate_traces.last_rejects):
+            if a or pos not in [l for l, _ in rj]:
+                raise Machinery('negative control "%s": corrupted event %d accepted by %s' % (name, pos, trace_module))
+    validate_traces.last_rejects = saved
+    return [m[0] for m in meta]
